@@ -46,5 +46,17 @@ Theorem C06_separation_factor (x y : Composition ROps) : cp x <> 0 -> 1 - cp x <
   process_separation_factor ROps (swap_comp y) (swap_comp x) = 1 / process_separation_factor ROps y x.
 Proof. exact (separation_factor_swap x y). Qed.
 
+(* the ideal isothermal and non-isothermal process loops commute with the relabelling: every reported row of the
+   relabelled run is the exchanged row (same time, mass, temperature, heats; composition 1-p; fluxes, permeances,
+   permeate composition exchanged), for any mirror-image flux calculation *)
+Theorem C06_ideal_processes kind (m : Mixture ROps) (cd : Conditions ROps) (dt prec : R) ct slv slv' perm f1 f2 (FR1 FR2 : R) n k st rows :
+  kind = IdealIso \/ kind = IdealNonIso ->
+  (forall a, slv' (swap_sargs a) = swap_res (slv a)) -> (forall a J, slv a = Ok J -> fst J + snd J <> 0) ->
+  (forall T, (exists h, latent_per_kg ROps (c1 m) T = Ok h) /\ (exists h, latent_per_kg ROps (c2 m) T = Ok h)) ->
+  run_from ROps kind m cd dt prec ct slv perm f1 f2 FR1 FR2 n k st = Ok rows ->
+  run_from ROps kind (swap_mixture m) cd dt prec ct slv' perm f1 f2 FR1 FR2 n k (swap_st st) = Ok (map swap_row rows).
+Proof. intros Hk H1 H2 H3. exact (run_swap kind Hk m cd dt prec ct slv slv' perm f1 f2 FR1 FR2 H1 H2 H3 n k st rows). Qed.
+
+Print Assumptions C06_ideal_processes.
 Print Assumptions C06_partial_pressures.
 Print Assumptions C06_solver_loop.
